@@ -251,7 +251,7 @@ PROPS["C03"] = dict(
                 3: "finished-is-not-the-prf-of-the-wire-transcript", 4: "completed-with-peer-certificates-other-than-the-peers",
                 5: "completed-although-the-endpoints-sent-something-else-than-untampered", 6: "completed-although-handed-messages-differ-from-those-sent",
                 7: "view-differs-from-the-serverhello-on-the-wire", 8: "completed-on-a-finished-other-than-the-expected-verify-data", 9: "panic-or-hang",
-                10: "never-completes-although-every-record-it-needs-arrives-intact", "livelock": "livelock",
+                10: "never-completes-although-every-record-it-needs-arrives-intact", 11: "completed-without-a-ChangeCipherSpec-record-having-been-handed-over", "livelock": "livelock",
                 21: "capture-malformed", 22: "model-framing-differs-from-the-implementation",
                 "hang": "hang"},
     assumptions=["SM3 is collision-free on the transcripts that occur (crypto_ideal: kH injective)",
